@@ -20,16 +20,8 @@ type c17Case struct {
 	Ops     []msOp `json:"ops"`
 }
 
-func c17RunOne(t *testing.T, e *msEtcd, cs c17Case) (im, et []msRes) {
-	ctx := context.Background()
-	ims := NewInMemoryStore(msInitial(cs.Brokers))
-	ets := e.fresh(t, cs.Brokers)
-	for _, op := range cs.Ops {
-		// PutConsumerGroup / UpdateTopicConfig receive their own message: the stores may mutate it
-		im = append(im, msApply(ctx, ims, op))
-		et = append(et, msApply(ctx, ets, op))
-	}
-	return
+func c17RunOne(t *testing.T, e *msEtcd, cs c17Case) msRun {
+	return msRunBoth(t, e, cs.Brokers, cs.Ops)
 }
 
 // first op index at which the two stores answered differently, -1 if none
@@ -58,11 +50,12 @@ func c17Classify(cs c17Case, at int) string {
 }
 
 func TestVerifC17(t *testing.T) {
-	rep := vNewReport("C17", "generated sequences (4-28 ops over all 16 Store operations, 1-6 topic and 1-5 group names, 30% of the cases with names containing '/', ':', '%', unicode, dot segments or empty) run on the real InMemoryStore and the real EtcdStore (embedded etcd); a case is non-trivial when it has a successful CreateTopic, a commit or group put, and a later read that returns stored data; distinct = distinct canonical (brokers, op list)")
+	rep := vNewReport("C17", "generated sequences (4-28 ops over all 16 Store operations, 1-6 topic and 1-5 group names, 30% of those cases with names containing '/', ':', '%', unicode, dot segments or empty) run on the real InMemoryStore and the real EtcdStore (embedded etcd); every third case is a two-topic scenario: valid names where one is a strict string prefix of the other (a / a-b / a.b / a_1 / a0 ...), durable state on both, then DeleteTopic / re-create / growth / config / offsets on one, each followed by a full read-back of the other; the real etcd key set is read through the client after every op; a case is non-trivial when it has a successful CreateTopic, a commit or group put, and a later read that returns stored data; distinct = distinct canonical (brokers, op list)")
 	e := msStartEtcd(t)
 	var coq, jsons []string
 	runOne := func(cs c17Case) {
-		im, et := c17RunOne(t, e, cs)
+		run := c17RunOne(t, e, cs)
+		im, et := run.im, run.et
 		canon, _ := json.Marshal(cs)
 		created, wrote, read := false, false, false
 		for i, op := range cs.Ops {
@@ -84,10 +77,11 @@ func TestVerifC17(t *testing.T) {
 			rep.Hist("diverged")
 			shr := cs
 			shr.Ops = vShrink(cs.Ops, func(ops []msOp) bool {
-				a, b := c17RunOne(t, e, c17Case{Brokers: cs.Brokers, Ops: ops})
-				return c17Diverge(a, b) >= 0
+				rr := c17RunOne(t, e, c17Case{Brokers: cs.Brokers, Ops: ops})
+				return c17Diverge(rr.im, rr.et) >= 0
 			})
-			a, b := c17RunOne(t, e, shr)
+			rr := c17RunOne(t, e, shr)
+			a, b := rr.im, rr.et
 			k := c17Diverge(a, b)
 			if k < 0 {
 				shr, a, b, k = cs, im, et, at
@@ -95,7 +89,7 @@ func TestVerifC17(t *testing.T) {
 			rep.Fail("same-observable", c17Classify(shr, k),
 				fmt.Sprintf("op %d (%s): in-memory store answered %+v, etcd store answered %+v", k, msCoqOp(shr.Ops[k]), a[k], b[k]), shr)
 		}
-		coq = append(coq, fmt.Sprintf("mkCase17 %d %s %s %s", cs.Brokers, msCoqOps(cs.Ops), msCoqResList(im), msCoqResList(et)))
+		coq = append(coq, fmt.Sprintf("mkCase17 %d %s %s %s %s", cs.Brokers, msCoqOps(cs.Ops), msCoqResList(im), msCoqResList(et), msCoqKeys(run.kvs)))
 		jsons = append(jsons, string(canon))
 	}
 	if rc := vReplayCase(); rc != nil {
@@ -119,6 +113,8 @@ func TestVerifC17(t *testing.T) {
 			{Brokers: 1, Ops: []msOp{{K: "ct", Topic: "offsets", N: 1, RF: 1}, {K: "ct", Topic: "a", N: 1, RF: 1}, {K: "co", Group: "offsets", Topic: "a", N: 5}, {K: "dt", Topic: "offsets"}, {K: "fo", Group: "offsets", Topic: "a"}}},
 			// error precedence of CreatePartitions
 			{Brokers: 1, Ops: []msOp{{K: "cp", Topic: "nosuch", N: 0}, {K: "cp", Topic: "nosuch", N: 3}}},
+			// a topic whose name is a strict prefix of another live topic is deleted
+			{Brokers: 1, Ops: []msOp{{K: "ct", Topic: "orders", N: 1, RF: 1}, {K: "ct", Topic: "orders-v2", N: 2, RF: 1}, {K: "uo", Topic: "orders-v2", Part: 1, N: 41}, {K: "uc", C: &msCfg{Name: "orders-v2", RF: 1, RetMs: 9, RetBytes: -1, Config: [][2]string{}}}, {K: "cp", Topic: "orders-v2", N: 3}, {K: "co", Group: "g1", Topic: "orders-v2", Part: 0, N: 5}, {K: "dt", Topic: "orders"}, {K: "no", Topic: "orders-v2", Part: 1}, {K: "fc", Topic: "orders-v2"}, {K: "fo", Group: "g1", Topic: "orders-v2"}, {K: "ls"}}},
 			// the open finding: a group id containing '/' is not listed by the etcd store
 			{Brokers: 1, Ops: []msOp{{K: "co", Group: "g/1", Topic: "orders", N: 3}, {K: "ls"}}},
 			{Brokers: 1, Ops: []msOp{{K: "co", Group: "a/offsets/b", Topic: "c", N: 7}, {K: "fo", Group: "a", Topic: "b/offsets/c"}}},
@@ -130,6 +126,15 @@ func TestVerifC17(t *testing.T) {
 		n := vN(150, 2000)
 		for i := 0; i < n; i++ {
 			rr := r.Fork()
+			if i%3 == 2 {
+				// two live topics with prefix-related valid names, state on both, operations on one
+				// interleaved with read-backs of the other
+				sc := msGenScenario(rr)
+				ops, _, _ := msScenarioOps(sc)
+				rep.Hist("names:prefix-pair")
+				runOne(c17Case{Brokers: sc.Brokers, Ops: ops})
+				continue
+			}
 			names := msPickNames(rr, 30)
 			cs := c17Case{Brokers: rr.Range(0, 3)}
 			k := rr.Range(4, 28)
